@@ -99,6 +99,43 @@ pub fn gen(prop: &str, scen: &str, _k: u64, seed: u64, tier: &str) -> Case {
                 }
             }
         }
+        "mt.corrupt" => {
+            // C04 for the multi-threaded LZIP reader: storage faults on a valid multi-member file
+            case.set("role", 1);
+            case.fmt = "lzipmt".into();
+            case.wops.clear();
+            for _ in 0..r_f.range(1, 2) {
+                match r_f.below(3) {
+                    0 => case.storage.push(StFault { kind: "flip_frac".into(), a: r_f.below(1000), b: r_f.below(8), ..Default::default() }),
+                    1 => case.storage.push(StFault { kind: "subst_frac".into(), a: r_f.below(1000), b: r_f.below(256), ..Default::default() }),
+                    _ => case.storage.push(StFault { kind: "trunc_frac".into(), a: r_f.below(1000), ..Default::default() }),
+                }
+            }
+        }
+        "mt.hostile" => {
+            case.set("role", 1);
+            case.set("hostile", 1);
+            match r_f.below(4) {
+                0 => {
+                    // pure garbage, optionally behind a plausible start
+                    case.set("garbage", 1 + r_f.below(3) as i64);
+                    case.input = simcore::case::InputSpec::new("random", r_f.urange(0, 3000), r_f.next_u64());
+                }
+                1 => {
+                    case.set("many", *r_f.pick(&[50i64, 500, 3000, if big { 40000 } else { 8000 }]));
+                    case.input = simcore::case::InputSpec::new("text", r_f.urange(0, 20), 1);
+                    case.rbufs = vec![65536];
+                }
+                _ => {
+                    for _ in 0..r_f.range(1, 4) {
+                        let mut f = simcore::storage::random_fault(&mut r_f, 1000);
+                        f.name = "permille".into();
+                        case.storage.push(f);
+                    }
+                }
+            }
+            case.set("stack_kib", *r_f.pick(&[256i64, 1024]));
+        }
         "mt.drop" => {
             // drop point: after `drop_at` caller operations (writer ops or reads)
             case.set("drop_at", r_ops.below(12) as i64);
@@ -466,6 +503,9 @@ fn run_scheduled(case: &Case, max_steps: usize, body: impl Fn(&Arc<Mutex<MtOutco
 }
 
 fn step_budget(case: &Case, data_len: usize) -> usize {
+    if case.knob("many") > 0 {
+        return 400_000 + 400 * case.knob("many") as usize;
+    }
     let ops = case.wops.len() + 8 + data_len / case.read_sizes().iter().copied().min().unwrap_or(1).max(1).min(65536);
     30_000 + 600 * ops + 200 * (data_len / 1024)
 }
@@ -666,7 +706,71 @@ fn exec_reader(case: &Case, data: &Arc<Vec<u8>>, ctx: &mut Ctx) -> Option<Violat
         }
     };
     let orig_stream = stream.clone();
-    let applied = apply_storage(&mut stream, &case.storage);
+    let mut applied = apply_storage(&mut stream, &case.storage);
+    if case.knob("hostile") != 0 {
+        let n = stream.len() as u64;
+        let scaled: Vec<StFault> = case
+            .storage
+            .iter()
+            .filter(|f| f.name == "permille")
+            .map(|f| {
+                let mut g = f.clone();
+                g.a = f.a * n / 1000;
+                if f.kind == "swap" {
+                    g.b = f.b * n / 1000;
+                }
+                g.name.clear();
+                g
+            })
+            .collect();
+        applied += simcore::storage::apply(&mut stream, &scaled);
+        if case.knob("garbage") != 0 {
+            stream = data.to_vec();
+            match (case.knob("garbage"), case.fmt.as_str()) {
+                (2, "lzipmt") => {
+                    stream.splice(0..0, *b"LZIP\x01\x0c");
+                    // a plausible trailer so that the member scan finds something
+                    let total = stream.len() as u64 + 20;
+                    stream.extend_from_slice(&[0u8; 12]);
+                    stream.extend_from_slice(&total.to_le_bytes());
+                }
+                (2, _) => {
+                    stream.splice(0..0, [0xE0u8, 0x00, 0x10, 0x00, 0x10, 0x5D]);
+                }
+                (3, "lzipmt") => {
+                    let total = stream.len() as u64;
+                    if stream.len() >= 8 {
+                        let l = stream.len();
+                        stream[l - 8..].copy_from_slice(&total.to_le_bytes());
+                    }
+                }
+                _ => {}
+            }
+            applied += 1;
+        }
+        if case.knob("many") > 0 {
+            let count = case.knob("many") as usize;
+            let st = st_case(case);
+            let mut c = st.clone();
+            c.opt.unit = None;
+            let mut out = Vec::new();
+            if case.fmt == "lzipmt" {
+                let empty = codec::encode_vec(&c, &[]).unwrap_or_default();
+                for _ in 0..count {
+                    out.extend_from_slice(&empty);
+                }
+                out.extend_from_slice(&codec::encode_vec(&c, data).unwrap_or_default());
+            } else {
+                // thousands of independent one-byte units
+                for _ in 0..count {
+                    out.extend_from_slice(&[1, 0, 0, b'x']);
+                }
+                out.push(0);
+            }
+            stream = out;
+            applied += 1;
+        }
+    }
     ctx.fire("storage_fault", applied);
     ctx.bytes("stream", &stream);
     let cap = data.len() + (1 << 20);
@@ -700,7 +804,8 @@ fn exec_reader(case: &Case, data: &Arc<Vec<u8>>, ctx: &mut Ctx) -> Option<Violat
     if r.census.2 > 1 {
         ctx.probe("mt_more_than_one_worker", 1);
     }
-    if scen == "mt.drop" {
+    if scen == "mt.drop" || scen == "mt.hostile" {
+        // termination, panics, leaks and the worker bound are all these scenarios judge
         return None;
     }
     let src_fault_fired = r.io.fired.iter().any(|(k, _)| k.starts_with("read_error") || k == "seek_error");
